@@ -126,6 +126,32 @@ func c03Check(c *caseCtx, g *genReq, d decision) {
 		byId[e.Alternative.Id] = e
 	}
 	nb := len(d.Trace.Bias)
+	if nb == 0 {
+		// without biases the parameters the method evaluates with are the ones this request configures, bit for bit
+		// (not those of an earlier request that looked alike)
+		if w, ok := g.M["methodParameters"].(M)["weights"].(M); ok {
+			for key, v := range w {
+				want, isNum := v.(float64)
+				if !isNum {
+					continue
+				}
+				parts := strings.Split(key, ",")
+				sort.Strings(parts)
+				var got float64
+				var has bool
+				if g.method == "choquetIntegral" {
+					got, has = s.Params.Choquet[strings.Join(parts, ",")]
+				} else {
+					got, has = s.Params.W[key]
+				}
+				if has && got != want {
+					c.violate("parameters-not-as-configured", fmt.Sprintf("the request configures %v for '%s', the method evaluates with %v", want, key, got), M{"request": g.M})
+					return
+				}
+			}
+			c.count("parameters_as_configured", 1)
+		}
+	}
 	for _, a := range s.Cons {
 		e, ok := byId[a.Id]
 		if !ok {
@@ -291,6 +317,28 @@ func c03ChoquetTies(c *caseCtx) {
 	}
 	d := decide(g.body(), true)
 	c03Check(c, g, d)
+	if c.idx%4 == 2 && d.OK && len(d.Trace.Bias) == 0 {
+		// the next request of the same process looks almost the same: every capacity moved by a few 1e-9 (less than any
+		// "equal within tolerance" comparison would notice), values a thousand times larger
+		w := g.M["methodParameters"].(M)["weights"].(M)
+		for k, v := range w {
+			x := v.(float64)
+			step := float64(1+c.rng.Intn(8)) * 1e-9
+			if x >= 0.5 {
+				w[k] = x - step
+			} else {
+				w[k] = x + step
+			}
+		}
+		for _, a := range g.M["knownAlternatives"].([]interface{}) {
+			cv := a.(M)["criteria"].(M)
+			for k, v := range cv {
+				cv[k] = v.(float64) * 1000
+			}
+		}
+		c.count("near_identical_followups", 1)
+		c03Check(c, g, decide(g.body(), true))
+	}
 }
 
 func init() {
